@@ -213,6 +213,10 @@ Proof.
   field. assumption.
 Qed.
 
+Corollary ramp_endpoints : forall d a b,
+    (2 <= d)%Z -> ramp_sample QN d a b 0 = a /\ ramp_sample QN d a b (d - 1) = b.
+Proof. intros d a b H. exact (conj (ramp_first d a b H) (ramp_last d a b H)). Qed.
+
 Theorem ramp_samples_nth : forall E d a b i,
     (2 <= d)%Z -> (0 <= i < d)%Z ->
     exists l, samples QN E (WRamp d a b) = Ok l /\
